@@ -611,3 +611,8 @@ CORPUS = [
 ]
 
 PROP = Prop()
+
+import parts  # noqa: E402
+import parts_misc  # noqa: E402
+
+parts.attach(PROP, parts_misc.PRINT)   # Tree.print (model Forest/MiscPrint.v, theorems at the end of Properties/C16.v)
